@@ -155,7 +155,9 @@ def extract_core(repo=None, use_cache=None):
     meta = {"repo": repo, "source_hash": h, "driver_hash": dh, "cached": bool(cached),
             "extract_s": round(time.time() - t0, 2), "fact_file": fact}
     if os.environ.get("LSV_NO_INLINE") != "1":
-        from . import inline
+        from . import inline, align
+        data, arep = align.apply(data)
+        meta["align"] = arep
         data, rep = inline.apply(data)
         meta["inline"] = rep
     return Facts(data, meta)
